@@ -304,6 +304,33 @@ def d3b_strip(chk: Check) -> None:
                          "unchanged" if want is None else want))
 
 
+def d5_empty_is_not_absent(chk: Check) -> None:
+    """An empty left document is a document: the shortcut for a missing one
+    tests `is None`, never truthiness.  And the merge point handed around
+    is a fresh object per request (strip_path_prefix re-renders its
+    arguments in slash notation, i.e. mutates them)."""
+    from rules.c06 import falsy_rule
+    falsy_rule(chk, "C11-D5", "yamlpath/merger/merger.py", 15,
+               doc_exprs={"self.data"})
+    prog = chk.prog
+    chk.rule("C11-D6", "get_insertion_point returns a freshly parsed path "
+             "on every call (its callers mutate the separator of what they "
+             "receive)", floor=2)
+    fi = prog.func("MergerConfig.get_insertion_point")
+    chk.analysed(fi)
+    for r in walk_local(fi.node):
+        if isinstance(r, ast.Return) and r.value is not None:
+            if isinstance(r.value, ast.Call) and \
+                    src(r.value.func) == "YAMLPath":
+                chk.ok("C11-D6", fi, r, src(r)[:60], "constructed here")
+            else:
+                chk.fail("C11-D6", fi, r, src(r)[:60],
+                         "a stored path object is handed out: "
+                         "strip_path_prefix forces slash notation on it, "
+                         "after which a dot-notation merge point is parsed "
+                         "as one key")
+
+
 def d4_no_partial(chk: Check) -> None:
     prog = chk.prog
     chk.rule("C11-D4", "yaml-merge writes its output only with a zero exit "
@@ -330,4 +357,5 @@ def run(chk: Check) -> None:
     d2_targets(chk)
     d3_rebase(chk)
     d3b_strip(chk)
+    d5_empty_is_not_absent(chk)
     d4_no_partial(chk)
